@@ -30,6 +30,12 @@ def run(ctx):
         budget = M.random_budget(rnd) if k else (2, 10, 2, 1, 1000005)
         r, it = M.scripts(ctx, "scripts %d" % k, {"map"}, 300 if th else 100, 60, budget, INV, PROP, salt=20 + k)
         items += it
+    if th:
+        # the default constants of the metadata server (1000 / 3600 s / 10), global budget spent
+        r, it = M.scripts(ctx, "default constants", {"map"}, 1, 0, (1000, 3600, 10, 0, 1641027722),
+                          "FloodBound FloodRowBelowCredit FloodTimesRounded ChargedWhenExhausted PositiveIds",
+                          "GetOrCreateIdempotent DeadIdsNeverReissued", salt=99, fixed=[M.real_constants_script(rnd)])
+        items += it
     # 3. the real DBV2
     M.drive(ctx, "C19", items, "mappings")
     ctx.ev.assume("clock progression = the clock never steps back (arbitrary forward steps, aligned or not); "
@@ -37,3 +43,7 @@ def run(ctx):
                   "of the pairs it replaces")
     ctx.ev.assume("elapsed steps = step boundaries crossed by the clock; 'global budget exhausted' = an id above "
                   "GlobalBudget has been handed out")
+
+
+def replay(ctx, path):
+    M.replay_witness(ctx, "C19", path)
